@@ -1,0 +1,7 @@
+// +build !verif
+
+package ldb
+
+// simBeforeWriterLock is a simulation hook (see sim_storage_verif.go); empty
+// and inlined away without the "verif" build tag.
+func simBeforeWriterLock() {}
